@@ -548,6 +548,16 @@ class Ctx(object):
                     pr.value = c.what
                     self.stats.cut_paths += 1
                     self.stats.cut_what[c.what] = self.stats.cut_what.get(c.what, 0) + 1
+                except (Unsupported, Exception):
+                    # a point of this path, for the runner's concrete fallback
+                    self.fail_inputs = None
+                    try:
+                        m = self.small_model()
+                        if m is not None:
+                            self.fail_inputs = self.model_inputs(m)
+                    except BaseException:
+                        pass
+                    raise
                 if pr.kind != 'abort':
                     pr.pc = list(self.pc)
                     pr.decisions = list(self.trail)
